@@ -492,6 +492,7 @@ def translate_once(repo):
         path = os.path.join(repo, rel)
         CURFILE[0] = path
         out.append(N.once_method(ast.parse(open(path).read()), defaults, name, w))
+        out.append(N.schedule_types(ast.parse(open(path).read()), name.replace("once_call", "schedule_type")))
     return HEADER % dpath + "\n".join(out)
 
 
